@@ -49,6 +49,14 @@ type permCase struct {
 	HasUser  bool
 	Requests []string // paths or globs, "ROOT"-relative forms
 	E2E      bool
+	// Relinks: after the requests were judged once, these links are re-pointed and the same user (the same
+	// session object) is asked again: a verdict must follow the file the path leads to now
+	Relinks []relink
+}
+
+type relink struct {
+	Entry  int    // index into Entries (a link)
+	Target string // new target, "ROOT"-relative form
 }
 
 var fileNames = []string{"f0.log", "f1.log", "secret1", "secret2.txt", "a:b.log", "app-1.log", "x"}
@@ -158,6 +166,21 @@ func genCase(e2e bool) func(t *rapid.T) permCase {
 				dirs = append(dirs, e.Path)
 			} else {
 				leafs = append(leafs, e.Path)
+			}
+		}
+		if !e2e && rapid.Bool().Draw(t, "relink") {
+			var links []int
+			for i, e := range c.Entries {
+				if e.Kind == model.KLink {
+					links = append(links, i)
+				}
+			}
+			if len(links) > 0 {
+				n := rapid.IntRange(1, 2).Draw(t, "nrelink")
+				for k := 0; k < n; k++ {
+					li := rapid.SampledFrom(links).Draw(t, "relink-which")
+					c.Relinks = append(c.Relinks, relink{Entry: li, Target: "ROOT/" + rapid.SampledFrom(append(append([]string{}, leafs...), dirs...)).Draw(t, "relink-to")})
+				}
 			}
 		}
 		nreq := rapid.IntRange(1, 4).Draw(t, "nreq")
@@ -384,12 +407,45 @@ func evalInproc(c permCase) lib.Outcome {
 			return o
 		}
 	}
+	if len(c.Relinks) == 0 {
+		return o
+	}
+	// re-point links and ask the same user object again
+	for _, rl := range c.Relinks {
+		p := filepath.Join(dir, c.Entries[rl.Entry].Path)
+		nt := c.sub(dir, rl.Target)
+		os.Remove(p)
+		if err := os.Symlink(nt, p); err != nil {
+			return lib.Outcome{Inconclusive: err.Error()}
+		}
+		tree.Nodes[p] = model.Node{Kind: model.KLink, Target: nt}
+	}
+	o.Classes = append(o.Classes, "links-re-pointed-between-requests")
+	for i, r := range reqs {
+		res, kind, ok := tree.Resolve(absReqs[i])
+		want := false
+		if ok && len(rs) > 0 {
+			w, rok := model.Allowed(rs, res, kind == model.KFile)
+			if !rok {
+				return lib.Outcome{Skip: true}
+			}
+			want = w
+		}
+		got := false
+		if err == nil {
+			got = u.HasFilePermission(r, "readfiles")
+		}
+		if got != want {
+			o.Fail = fmt.Sprintf("after re-pointing %d link(s): HasFilePermission(%q) = %v for the same user, want %v (now resolves to %q, regular=%v, exists=%v) under rules %q", len(c.Relinks), r, got, want, res, kind == model.KFile, ok, rs)
+			return o
+		}
+	}
 	return o
 }
 
 func TestC08Verdict(t *testing.T) {
 	lib.Run(t, lib.Spec[permCase]{Prop: "C08", Check: "verdict",
-		Rule: "scratch tree (2-5 dirs, files, symlinks to files/dirs/symlinks/loops//dev/zero/dangling, FIFO) x 0..6 rules (allow / !deny, 'readfiles:' or bare, POSIX classes and literal ':' inside, per-user or default) x 1..4 requested paths (direct, with .., through directory links, relative); oracle: HasFilePermission == last-match-wins over the path resolved by an independent tree model, regular files only; non-trivial = allow and deny rule both match a request, or a request reaches its target through a symlink/..; distinct by full case",
+		Rule: "scratch tree (2-5 dirs, files, symlinks to files/dirs/symlinks/loops//dev/zero/dangling, FIFO) x 0..6 rules (allow / !deny, 'readfiles:' or bare, POSIX classes and literal ':' inside, per-user or default) x 1..4 requested paths (direct, with .., through directory links, relative), optionally asked a second time on the same user object after 1-2 links were re-pointed; oracle: HasFilePermission == last-match-wins over the path resolved by an independent tree model, regular files only; non-trivial = allow and deny rule both match a request, or a request reaches its target through a symlink/..; distinct by full case",
 		Gen:  genCase(false), Eval: evalInproc})
 }
 
